@@ -5,6 +5,7 @@ from ..core import (rng_for, rand_digits, M64, ndig, Cmd, U, I, X, S, W, PANIC, 
 from ..oracles import tostr, words, mag_bytes_be, signed_bytes_be, radix_digits_le
 from ..arith import tdivmod, STYPES
 
+THOROUGH_SEEDS = 4   # the thorough tier repeats its staged workload over this many derived seeds
 RULE = ('histories: a register file is driven through random sequences (40-120 steps) of constructors with redundant input '
         '(high zero words / bytes / digits, leading zeros and underscores in text, NoSign with non-zero magnitude, Plus/Minus '
         'with zero, sign-extended signed bytes), in-place operators += -= *= /= %= <<= >>= &= |= ^= (big and scalar operands), '
